@@ -70,6 +70,7 @@ class C19(Check):
         for W in (1, 2):
             cfgs.append(Config('front_single_W%d' % W, self.front, {'joint': False, 'W': W}, split=4))
             cfgs.append(Config('front_joint_W%d' % W, self.front, {'joint': True, 'W': W}, split=4))
+            cfgs.append(Config('front_joint_vector_beta_W%d' % W, self.front, {'joint': True, 'W': W, 'vector': True}, split=4))
         cfgs.append(Config('failing', self.failing, {}, split=3))
         return cfgs
 
@@ -154,7 +155,7 @@ class C19(Check):
                 conj([no_caller_writes(), len(given) == 2, given[0] is series[0], given[1] is series[1]] +
                      [stubs.unchanged(sn, a) for sn, a in zip(snaps, series)]))
 
-    def _front_call(self, c, joint, W, fault=None):
+    def _front_call(self, c, joint, W, fault=None, vector=False):
         Rp = self.R
         K, N = 2, 1
         n = N * W
@@ -167,7 +168,7 @@ class C19(Check):
         lam = stubs.sym_symmetric(c, 'lam', n)
         lam._b.writeable = False
         T = sum(len(a) - W + 1 for a in series)
-        beta = c.real('b', 0) if joint else caller_array(c, 'b', (T,), lo=0)
+        beta = c.real('b', 0) if (joint and not vector) else caller_array(c, 'b', (T,), lo=0)
         given = list(series)
         protected = series + [lam, beta]
         snaps = [stubs.snapshot(a) for a in protected]
@@ -208,9 +209,9 @@ class C19(Check):
                       [stubs.unchanged(sn, a) for sn, a in zip(snaps, protected)])
         return res, raised, intact
 
-    def front(self, c, joint, W):
-        c.notes.update({'kind': 'front', 'joint': joint, 'W': W})
-        res, raised, intact = self._front_call(c, joint, W)
+    def front(self, c, joint, W, vector=False):
+        c.notes.update({'kind': 'front', 'joint': joint, 'W': W, 'vector': vector})
+        res, raised, intact = self._front_call(c, joint, W, vector=vector)
         if raised is not None:
             c.notes['unexpected_exception'] = repr(raised)
             c.prove('front_ends_leave_inputs_alone', False, detail={'raised': repr(raised)})
